@@ -659,10 +659,21 @@ class _matrix(object):
         return self.__add__(other)
 
     def __sub__(self, other):
-        if isinstance(other, self.ctx.matrix) and not (self.__rows == other.__rows
-                                              and self.__cols == other.__cols):
-            raise ValueError('incompatible dimensions for subtraction')
-        return self.__add__(other * (-1))
+        if isinstance(other, self.ctx.matrix):
+            if not (self.__rows == other.__rows and self.__cols == other.__cols):
+                raise ValueError('incompatible dimensions for subtraction')
+            new = self.ctx.matrix(self.__rows, self.__cols)
+            for i in xrange(self.__rows):
+                for j in xrange(self.__cols):
+                    new[i,j] = self[i,j] - other[i,j]
+            return new
+        else:
+            # assume other is scalar and subtract element-wise
+            new = self.ctx.matrix(self.__rows, self.__cols)
+            for i in xrange(self.__rows):
+                for j in xrange(self.__cols):
+                    new[i,j] = self[i,j] - other
+            return new
 
     def __pos__(self):
         """
@@ -674,7 +685,12 @@ class _matrix(object):
         return (-1) * self
 
     def __rsub__(self, other):
-        return -self + other
+        # assume other is scalar and subtract element-wise
+        new = self.ctx.matrix(self.__rows, self.__cols)
+        for i in xrange(self.__rows):
+            for j in xrange(self.__cols):
+                new[i,j] = other - self[i,j]
+        return new
 
     def __eq__(self, other):
         return self.__rows == other.__rows and self.__cols == other.__cols \
